@@ -1,6 +1,8 @@
 /-
-  WD.Spec.PipelineSpec — hypotheses of the pipeline theorems as executable predicates (the driver
-  evaluates them on every history it replays against the real observer).
+  WD.Spec.PipelineSpec — the per-operation CONTRACT of the native pipeline as a function of the file
+  system alone (no kernel, no library state), the hypotheses of the pipeline theorems and the pipeline
+  invariant as executable predicates (the driver evaluates them on every history it replays against the
+  real observer).
 -/
 import WD.Model.Pipeline
 namespace WD.Pipe
@@ -10,12 +12,88 @@ def allValid (s : Sys) : List Op → Bool
   | [] => true
   | op :: rest => validOp s.fs op && allValid (s.op op).1 rest
 
-/-- C01/C02's histories: valid operations on entries of the watched tree (moves out of and into the tree
-    included) that do not reach into a directory which left the tree with its watches (known finding D2) -/
-def histOk (s : Sys) : List Op → Bool
-  | [] => true
-  | op :: rest => validOp s.fs op && inScope op && quietOp s.fs s.k op && histOk (s.op op).1 rest
-
 def allEvents (r : Sys × List (List PEv)) : List PEv := r.2.flatten
+
+/-- is `d` a directory the watch reports the entries of?  recursive: the root and every directory below
+    it; non-recursive: the root only -/
+def watchedDir (fs : FS) (recursive : Bool) (d : P) : Bool :=
+  fs.isDir d && (d == ["W"] || (recursive && isUnder ["W"] d))
+
+def dirMod (p : P) : PEv := mkEv .DirModifiedEvent (parentOf p)
+def evDeleted (isDir : Bool) (p : P) : List PEv :=
+  [mkEv (if isDir then .DirDeletedEvent else .FileDeletedEvent) p, dirMod p]
+def movedCls (isDir : Bool) : EvClass := if isDir then .DirMovedEvent else .FileMovedEvent
+def createdCls (isDir : Bool) : EvClass := if isDir then .DirCreatedEvent else .FileCreatedEvent
+
+/-- the file system after an operation (no kernel involved) -/
+def fsAfter (fs : FS) (op : Op) : FS := (kernelOp fs ⟨[], 1, 1⟩ op).1
+
+def contractRemovals (fs : FS) (recursive : Bool) (es : List Ent) : List PEv :=
+  es.flatMap (fun e => if watchedDir fs recursive (parentOf e.path) then evDeleted e.isDir e.path else [])
+
+/-- C03's per-operation contract: the events one operation must produce, and whether the emitter stops -/
+def contract (fs : FS) (recursive full : Bool) (op : Op) : List PEv × Bool :=
+  let w := fun (p : P) => watchedDir fs recursive (parentOf p)
+  match op with
+  | .create p =>
+    (if w p then [mkEv .FileCreatedEvent p, dirMod p, mkEv .FileOpenedEvent p, mkEv .FileClosedEvent p, dirMod p] else [], false)
+  | .write p =>
+    (if w p then [mkEv .FileOpenedEvent p, mkEv .FileModifiedEvent p, mkEv .FileClosedEvent p, dirMod p] else [], false)
+  | .chmod p =>
+    match fs.find? p with
+    | some e =>
+      ((if e.isDir && watchedDir fs recursive p then [mkEv .DirModifiedEvent p] else []) ++
+       (if w p then [mkEv (if e.isDir then .DirModifiedEvent else .FileModifiedEvent) p] else []), false)
+    | none => ([], false)
+  | .unlink p => (if w p && fs.exists p then evDeleted false p else [], false)
+  | .mkdir p => (if w p then [mkEv .DirCreatedEvent p, dirMod p] else [], false)
+  | .rmdir p =>
+    if p == ["W"] then ([mkEv .DirDeletedEvent p], true)
+    else (if w p && fs.exists p then evDeleted true p else [], false)
+  | .rmtree p => (contractRemovals fs recursive ((canonOrder fs p).filterMap fs.find? ++ (fs.find? p).toList), false)
+  | .rmtreeOrd p order => (contractRemovals fs recursive (order.filterMap fs.find? ++ (fs.find? p).toList), false)
+  | .rename p q =>
+    match fs.find? p with
+    | none => ([], false)
+    | some e =>
+      let fs1 := fsAfter fs op
+      let tail := match fs.find? q with
+        | some old => if old.isDir && watchedDir fs recursive q then [mkEv .DirModifiedEvent q] else []
+        | none => []
+      if w p && w q then
+        ([mkEv (movedCls e.isDir) p q, dirMod p, dirMod q] ++
+         (if e.isDir && recursive then subMoved fs1 p q else []) ++ tail, false)
+      else if w p then
+        ((if full then [mkEv (movedCls e.isDir) p [], dirMod p] else evDeleted e.isDir p) ++ tail, false)
+      else if w q then
+        ((if full then [mkEv (movedCls e.isDir) [] q] else [mkEv (createdCls e.isDir) q]) ++ [dirMod q] ++
+         (if e.isDir && recursive then subCreated fs1 q else []) ++ tail, false)
+      else ([], false)
+
+/- ---------------------------- the pipeline invariant, executable ---------------------------- -/
+
+def inTreeDir (e : Ent) : Bool := e.isDir && (e.path == ["W"] || isUnder ["W"] e.path)
+
+/-- recursive watch: kernel watches, `_path_for_wd` and `_wd_for_path` are one and the same bijection
+    between watch descriptors and the directories that exist at or below the root, under their real
+    current paths — nothing missing (C02's coverage), nothing stale -/
+def invRec (s : Sys) : Bool :=
+  decide ((s.k.watches.map (·.1)).Nodup) && decide ((s.k.watches.map (·.2)).Nodup) &&
+  s.k.watches.all (fun w => decide (w.1 < s.k.nextWd) &&
+    s.fs.ents.any (fun e => e.ino == w.2 && inTreeDir e && lookupW s.lib.pathForWd w.1 == some e.path &&
+                            lookupP s.lib.wdForPath e.path == some w.1)) &&
+  s.fs.ents.all (fun e => !inTreeDir e || (s.k.wdOfIno e.ino).isSome) &&
+  s.lib.pathForWd.all (fun x => s.k.watches.any (fun w => w.1 == x.1)) &&
+  decide ((s.lib.pathForWd.map (·.1)).Nodup) &&
+  s.lib.wdForPath.all (fun x => lookupW s.lib.pathForWd x.2 == some x.1) &&
+  decide ((s.lib.wdForPath.map (·.1)).Nodup)
+
+/-- non-recursive watch: one watch, on the root -/
+def invFlat (s : Sys) : Bool :=
+  match s.fs.find? ["W"] with
+  | some e => s.k.watches == [(1, e.ino)] && s.lib.pathForWd == [(1, ["W"])] && s.lib.wdForPath == [(["W"], 1)] && e.isDir
+  | none => false
+
+def Sys.inv (s : Sys) : Bool := !s.crashed && (if s.lib.recursive then invRec s else invFlat s)
 
 end WD.Pipe
